@@ -138,9 +138,15 @@ def run_shard(ctx):
                 if op == '-' and m > n:
                     n, m = m, n
                 b2 = rng.choice([16, 8, 2, 10])
-                text = '%s %s %s' % (lit(n, src, rng), op, lit(m, b2, rng))
+                glue = rng.choice(['%s %s %s', '%s %s %s', '%s%s%s', '%s %s%s', '%s%s %s'])          # the operator may be written without blanks
+                text = glue % (lit(n, src, rng), op, lit(m, b2, rng))
                 want_n = {'+': n + m, '-': n - m, '*': n * m}[op]
                 want_base, cls = src, 'arith' + op
+                if op == '+' and rng.random() < 0.25 and m >= n:
+                    # a sign written directly in front of the first literal: -A + B
+                    text = '-%s %s %s' % (lit(n, src, rng), op, lit(m, b2, rng))
+                    want_n = m - n
+                    cls = 'arith-leading-sign'          # only the value is judged (which base the result is shown in is not stated)
             items.append(('en', text))
             meta.append((text, want_n, want_base, cls))
         rs = mon.run_lines(drv, cfg, items)
@@ -158,6 +164,8 @@ def run_shard(ctx):
                 wantf = float(want_n)
                 if got != wantf:
                     problem = 'value %r, expected %r' % (got, wantf)
+                elif cls == 'arith-leading-sign':
+                    pass
                 elif slot['v']['t'] != TYPE_OF[want_base]:
                     problem = 'number kept base %s, expected %s' % (slot['v']['t'], TYPE_OF[want_base])
                 else:
